@@ -402,6 +402,11 @@ func TestTrace(t *testing.T) {
 		holderDone := make(chan struct{})
 		if faulty {
 			// another connection takes a lock for a while; the logged window encloses the real one
+			if release, ok := in.Hold("commit"); ok { // opens the second connection while nobody else is at the file
+				release()
+			} else {
+				t.Fatal("cannot open the second connection")
+			}
 			go func() {
 				defer close(holderDone)
 				rng := vh.Rand(int64(tr*100 + 77))
